@@ -217,6 +217,39 @@ pub fn finding_mvreg_foreign_dots() -> (bool, String) {
     (ra != rc, format!("same 5 ops, causal delivery: replica A reads key 0 = {:?}, replica C reads {:?}; A == C: {}", ra, rc, a == c))
 }
 
+/// F20b: ONE key, ops only, causal delivery: the same four ops give equal reads but different hidden value clocks (a key remove
+/// trims the clock of a surviving value only where the value was already there when the remove was applied), so `==` differs
+pub fn finding_mvreg_hidden_clock() -> (bool, String) {
+    let (mut r0, mut r1): (MM, MM) = (Map::new(), Map::new());
+    let w1 = r1.update(0u8, r1.read_ctx().derive_add_ctx(2), |r, c| r.write(1, c)); r1.apply(w1.clone());
+    let w3 = r0.update(0u8, r0.read_ctx().derive_add_ctx(1), |r, c| r.write(3, c)); r0.apply(w3.clone());
+    r0.apply(w1.clone());
+    let w4 = r0.update(0u8, r0.read_ctx().derive_add_ctx(1), |r, c| r.write(4, c)); r0.apply(w4.clone());
+    let rm = r1.rm(0u8, r1.get(&0).derive_rm_ctx()); r1.apply(rm.clone());
+    r0.apply(rm.clone());
+    r1.apply(w3.clone()); r1.apply(w4.clone());
+    let rd = |m: &MM| m.get(&0).val.map(|r| { let mut v = r.read().val; v.sort(); v });
+    (rd(&r0) == rd(&r1) && r0 != r1, format!("r1: write 1 (B1); r0: write 3 (A1); r0<-B1; r0: write 4 (A2, context {{A2,B1}}); r1: rm key (context {{B1}}); r0<-rm; r1<-A1; r1<-A2.  same 4 ops, reads r0={:?} r1={:?}, r0 == r1: {}; r0 = {:?}; r1 = {:?}", rd(&r0), rd(&r1), r0 == r1, r0, r1))
+}
+
+/// F01b: the F01 mechanism on ONE key: a value whose clock still carries the dot of an earlier, already removed write of the same
+/// key survives a later remove that observed it (the remove subtracts the entry clock, which no longer holds that dot)
+pub fn finding_mvreg_removed_dot_in_value_clock() -> (bool, String) {
+    let (mut r0, mut r1, mut r2): (MM, MM, MM) = (Map::new(), Map::new(), Map::new());
+    let w1 = r0.update(0u8, r0.read_ctx().derive_add_ctx(1), |r, c| r.write(1, c)); r0.apply(w1.clone());
+    r1.apply(w1.clone()); r2.apply(w1.clone());
+    let w2 = r1.update(0u8, r1.read_ctx().derive_add_ctx(2), |r, c| r.write(2, c)); r1.apply(w2.clone());
+    let rm1 = r2.rm(0u8, r2.get(&0).derive_rm_ctx()); r2.apply(rm1.clone());
+    r0.apply(rm1.clone());
+    let w3 = r0.update(0u8, r0.read_ctx().derive_add_ctx(1), |r, c| r.write(3, c)); r0.apply(w3.clone());
+    r2.apply(w2.clone());
+    let rm2 = r2.rm(0u8, r2.get(&0).derive_rm_ctx()); r2.apply(rm2.clone());
+    r0.apply(w2.clone());
+    r0.apply(rm2.clone());
+    let got = r0.get(&0).val.map(|r| { let mut v = r.read().val; v.sort(); v });
+    (got == Some(vec![2, 3]), format!("r0: write 1 (A1); r1<-A1, r2<-A1; r1: write 2 (B1, context {{A1,B1}}); r2: rm key {{A1}}; r0<-rm; r0: write 3 (A2); r2<-B1; r2: rm key {{B1}} (it has seen write 2); r0<-B1; r0<-second rm (causal).  r0 reads {:?}; write 2 was observed by the second remove and must be gone: want [3]", got))
+}
+
 /// F16: Map::validate_op rejects an in-order update of a second key at its own origin
 pub fn finding_map_validate_op() -> (bool, String) {
     let mut m: MM = Map::new();
@@ -339,6 +372,103 @@ pub fn search_mo(r: &mut Report, tier: &str, seed: u64) {
                 let sa: BTreeSet<usize> = log[a].iter().copied().collect(); let sb: BTreeSet<usize> = log[b].iter().copied().collect();
                 if sa == sb { let (ra, rb) = (mo_reads(&reps[a]), mo_reads(&reps[b])); r.case("map_orswot.same_ops_same_reads", ra == rb, &|| desc.clone(), &|| format!("r{} reads {:?}, r{} reads {:?}", a, ra, b, rb)); }
             } }
+            if r.failures > 0 { return; }
+        }
+    }
+}
+
+/// Map<u8, MVReg> VALUE layer against the specification taken from the property ("the value under a key reflects exactly the
+/// nested updates that survive"): a write survives iff its dot is covered neither by an applied remove of the key nor by the
+/// context of another applied write.  The two recorded value-layer defects are kept out by construction, not by loosening the
+/// oracle: F01 needs a second key (single key here); F03 needs a merge after one actor updated the key twice (phase 1 has no
+/// merges, phase 2 has merges but at most one update per actor).
+pub fn search_val(r: &mut Report, tier: &str, seed: u64) {
+    let (n, len) = if tier == "thorough" { (200000, 12) } else { (20000, 10) };
+    r.target = "Map<u8, MVReg<u8,u8>, u8> value layer on one key (C05 'the value reflects exactly the surviving nested updates', C09 no resurrection, C01/C08 same knowledge => same read): read of the key == values of the writes not covered by an applied remove nor by another applied write's context".into();
+    r.bound = format!("{} random programs of {} steps over 3 replicas, one key: one remove per program, which may overtake the writes it observed: family 0 write / rm / causal op delivery / re-delivery (no merges); family 1 the same plus merges, each actor writing at most once (seed {}); outside these families the recorded findings F01 / F03 apply (a second remove meets the F01 mechanism even on one key)", n, len, seed);
+    let mut s = seed.wrapping_add(0x2718281828);
+    for round in 0..n {
+        let family = round % 2;           // 0: ops only; 1: merges, one write per actor
+        let with_merges = family != 0;
+        let mut rm_issued = false;        // one remove per program: a second one meets the recorded F01 mechanism even on one key
+        let mut reps: Vec<MM> = vec![MM::new(), MM::new(), MM::new()];
+        let mut know: Vec<BTreeSet<usize>> = vec![BTreeSet::new(); 3];
+        let mut log: Vec<Vec<usize>> = vec![vec![]; 3];
+        let mut ops: Vec<Op<u8, MVReg<u8, u8>, u8>> = vec![];
+        let mut updated = [false; 3];
+        let mut desc = String::new();
+        let mut nv = 1u8;
+        for _ in 0..len {
+            let i = (lcg(&mut s) % 3) as usize;
+            let actor = (i + 1) as u8;
+            match lcg(&mut s) % 10 {
+                0 | 1 | 2 => {
+                    if family == 1 && updated[i] { continue; }
+                    updated[i] = true;
+                    let ctx = reps[i].read_ctx().derive_add_ctx(actor); let v = nv; nv += 1;
+                    let op = reps[i].update(0u8, ctx, |reg, c| reg.write(v, c));
+                    reps[i].apply(op.clone()); ops.push(op); log[i].push(ops.len() - 1); know[i].insert(ops.len() - 1);
+                    desc.push_str(&format!(" r{}:write({})", i, v));
+                }
+                3 | 4 => {
+                    if rm_issued { continue; }
+                    rm_issued = true;
+                    let op = reps[i].rm(0u8, reps[i].get(&0).derive_rm_ctx());
+                    reps[i].apply(op.clone()); ops.push(op); log[i].push(ops.len() - 1); know[i].insert(ops.len() - 1);
+                    desc.push_str(&format!(" r{}:rmkey", i));
+                }
+                5 | 6 | 7 => {
+                    let j = (i + 1 + (lcg(&mut s) % 2) as usize) % 3;
+                    if with_merges && lcg(&mut s) % 2 == 0 {
+                        let o = reps[j].clone(); reps[i].merge(o);
+                        let kj = know[j].clone(); know[i].extend(kj.iter().copied());
+                        // the merged-in ops count as delivered for later causal op delivery
+                        let lj = log[j].clone(); for o in lj { if !log[i].contains(&o) { log[i].push(o); } }
+                        desc.push_str(&format!(" r{}<-merge(r{})", i, j));
+                    } else if let Some(&o) = log[j].iter().find(|o| !know[i].contains(o)) {
+                        reps[i].apply(ops[o].clone()); log[i].push(o); know[i].insert(o); desc.push_str(&format!(" r{}<-op{}", i, o));
+                    }
+                }
+                8 => {
+                    // a remove may overtake the writes it observed (it is parked until they arrive)
+                    // (only writes are overtaken: every remove that precedes it at its origin has been delivered here)
+                    let rms: Vec<usize> = (0..ops.len()).filter(|&o| matches!(ops[o], Op::Rm { .. }) && !know[i].contains(&o) && (0..3).any(|j| {
+                        log[j].iter().position(|x| *x == o).map_or(false, |p| log[j][..p].iter().all(|x| !matches!(ops[*x], Op::Rm { .. }) || know[i].contains(x))) })).collect();
+                    if rms.is_empty() { continue; }
+                    let o = rms[(lcg(&mut s) as usize) % rms.len()];
+                    reps[i].apply(ops[o].clone()); know[i].insert(o); desc.push_str(&format!(" r{}<-early-rm(op{})", i, o));
+                }
+                _ => {
+                    if log[i].is_empty() { continue; }
+                    let o = log[i][(lcg(&mut s) as usize) % log[i].len()];
+                    reps[i].apply(ops[o].clone());
+                    desc.push_str(&format!(" r{}<-dup(op{})", i, o));
+                }
+            }
+            // C20, second half: once a remove and everything it observed have arrived, no pending remove is kept (the `deferred`
+            // table is private; the derived Debug output shows it).  `==` between replicas is NOT compared here: on the unchanged
+            // tree it fails for Map<_, MVReg> even on one key (recorded finding F20b: hidden value clocks)
+            for q in 0..3 {
+                let all_arrived = know[q].iter().all(|&b| match &ops[b] { Op::Rm { clock, .. } => *clock <= reps[q].read_ctx().add_clock, _ => true });
+                if all_arrived {
+                    let dbg = format!("{:?}", reps[q]);
+                    r.case("map_mvreg.no_pending_remove_residue", dbg.contains("deferred: {}"), &|| format!("{} @r{}", desc, q), &|| format!("every applied remove is covered by the map clock, yet a pending remove is kept: {}", dbg));
+                }
+            }
+            for q in 0..3 {
+                let mut want: Vec<u8> = vec![];
+                for &a in &know[q] {
+                    if let Op::Up { dot, op: mvreg::Op::Put { val, .. }, .. } = &ops[a] {
+                        let removed = know[q].iter().any(|&b| matches!(&ops[b], Op::Rm { clock, .. } if clock.get(&dot.actor) >= dot.counter));
+                        let overwritten = know[q].iter().any(|&b| b != a && matches!(&ops[b], Op::Up { op: mvreg::Op::Put { clock, .. }, .. } if clock.get(&dot.actor) >= dot.counter));
+                        if !removed && !overwritten { want.push(*val); }
+                    }
+                }
+                want.sort();
+                let mut got: Vec<u8> = reps[q].get(&0).val.map(|reg| reg.read().val).unwrap_or_default();
+                got.sort();
+                r.case("map_mvreg.value_is_surviving_writes", got == want, &|| format!("{} @r{}", desc, q), &|| format!("read {:?}, surviving writes {:?}", got, want));
+            }
             if r.failures > 0 { return; }
         }
     }
